@@ -343,3 +343,59 @@ let perturb (r : Rng.t) (s : src) : src =
       | SIf (c, a, b) -> let c' = go c in let a' = go a in SIf (c', a', go b) in
     go s
   end
+
+(* single-node type-level perturbations of a program (C03): operand kinds swapped, a type replaced by
+   another, an annotation dropped or altered, an argument or a condition replaced *)
+let rec count_nodes (s : src) : int =
+  match s with
+  | SVar _ | SLit _ | STrue | SFalse | SType | SInt | SBool | SHole -> 1
+  | SLam (_, _, an, b) -> 1 + (match an with Some a -> count_nodes a | None -> 0) + count_nodes b
+  | SPi (_, _, a, b) | SArrow (a, b) | SApp (a, b) | SBin (_, a, b) -> 1 + count_nodes a + count_nodes b
+  | SLet (ds, b) -> 1 + List.fold_left (fun acc (_, an, d) -> acc + (match an with Some a -> count_nodes a | None -> 0) + count_nodes d) 0 ds + count_nodes b
+  | SNeg a -> 1 + count_nodes a
+  | SIf (c, a, b) -> 1 + count_nodes c + count_nodes a + count_nodes b
+
+let perturb_type (r : Rng.t) (s : src) : src =
+  let n = count_nodes s in
+  let target = Rng.int r n in
+  let k = ref (-1) in
+  let mutate (s : src) : src =
+    match s with
+    | SLit _ -> Rng.pick r [ STrue; SInt; SNeg (STrue); SLam ("qq", false, Some SInt, SVar "qq") ]
+    | STrue | SFalse -> Rng.pick r [ SLit "1"; SBool; SType ]
+    | SInt -> Rng.pick r [ SBool; SLit "3"; SType; SArrow (SInt, SInt) ]
+    | SBool -> Rng.pick r [ SInt; STrue ]
+    | SType -> Rng.pick r [ SInt; SLit "0" ]
+    | SVar _ -> Rng.pick r [ SLit "7"; STrue; SInt ]
+    | SHole -> SInt
+    | SLam (x, im, Some a, b) -> if Rng.bool r then SLam (x, im, None, b) else SLam (x, im, Some (if a = SInt then SBool else SInt), b)
+    | SLam (x, im, None, b) -> SLam (x, not im, Some SBool, b)
+    | SPi (x, im, a, b) -> SPi (x, im, b, a)
+    | SArrow (a, b) -> Rng.pick r [ SArrow (b, a); a ]
+    | SApp (f, a) -> Rng.pick r [ SApp (f, STrue); SApp (f, SLit "1"); f; SApp (a, f) ]
+    | SLet ((x, Some a, d) :: ds, b) -> SLet ((x, Some (if a = SInt then SBool else SInt), d) :: ds, b)
+    | SLet ((x, None, d) :: ds, b) -> SLet ((x, Some SBool, d) :: ds, b)
+    | SLet ([], b) -> b
+    | SNeg a -> Rng.pick r [ SNeg STrue; a ]
+    | SBin (o, a, b) ->
+      (match Rng.int r 4 with
+       | 0 -> SBin (o, a, STrue) | 1 -> SBin (o, SFalse, b)
+       | 2 -> SBin ((if List.mem o [ "+"; "-"; "*"; "/" ] then "<" else "+"), a, b)
+       | _ -> SBin (o, b, a))
+    | SIf (c, a, b) -> Rng.pick r [ SIf (SLit "1", a, b); SIf (c, a, STrue); SIf (c, SLit "2", b); SIf (a, c, b) ] in
+  let rec go (s : src) : src =
+    incr k;
+    if !k = target then mutate s
+    else match s with
+      | SVar _ | SLit _ | STrue | SFalse | SType | SInt | SBool | SHole -> s
+      | SLam (x, im, an, b) -> let an' = (match an with Some a -> Some (go a) | None -> None) in SLam (x, im, an', go b)
+      | SPi (x, im, a, b) -> let a' = go a in SPi (x, im, a', go b)
+      | SArrow (a, b) -> let a' = go a in SArrow (a', go b)
+      | SApp (a, b) -> let a' = go a in SApp (a', go b)
+      | SBin (o, a, b) -> let a' = go a in SBin (o, a', go b)
+      | SLet (ds, b) ->
+        let ds' = List.map (fun (x, an, d) -> let an' = (match an with Some a -> Some (go a) | None -> None) in (x, an', go d)) ds in
+        SLet (ds', go b)
+      | SNeg a -> SNeg (go a)
+      | SIf (c, a, b) -> let c' = go c in let a' = go a in SIf (c', a', go b) in
+  go s
